@@ -129,6 +129,8 @@ class RecValue:
 
 def apply_contract(c, ip, f, args, kwargs):
     ctx = ip.ctx
+    if c.call is not None or c.assumed is None:
+        return NotImplemented      # contract is phrased over ghost parameters: the callee body is used instead (inlined)
     try:
         ba = inspect.signature(f).bind(*args, **kwargs)
     except TypeError as e:
@@ -242,6 +244,7 @@ def verify_contract(c, reg, timeout_ms=QUICK_TIMEOUT_MS, max_paths=4000, want_sm
         _collect(ip)
         penv = dict(env)
         penv.update(olds)
+        penv['call_args'] = call_kwargs
         if outcome.kind == 'raise':
             exc = outcome.detail.exc
             cond_fn = None
@@ -387,8 +390,18 @@ def _external(smt2, solver, timeout_s):
 def discharge(ob, ctx, c, timeout_ms):
     claim = ob.claim
     neg = z3.Not(claim)
-    r, s, secs = _solve(ob.pc, neg, timeout_ms)
-    ob.secs = secs
+    soft = ob.info.pop('soft', None) or set()
+    hard = [p for p in ob.pc if p.get_id() not in soft]
+    secs0 = 0.0
+    r = z3.unknown
+    if len(hard) < len(ob.pc):
+        # proof attempt without the sequence-length coupling facts (fewer hypotheses: unsat is still a proof)
+        r, s, secs0 = _solve(hard, neg, min(timeout_ms, 3000))
+    if r != z3.unsat:
+        r, s, secs = _solve(ob.pc, neg, timeout_ms)
+    else:
+        secs = 0.0
+    ob.secs = secs + secs0
     ob.solver = 'z3-%s' % z3.get_version_string()
     ob.info['smt_head'] = ('(assert (not %s))' % claim.sexpr())[:400] if timeout_ms else None
     if r == z3.unknown:
@@ -513,6 +526,7 @@ def replay_native(c, conc):
         exc = e
     penv = dict(env)
     penv.update(olds)
+    penv['call_args'] = kwargs
     if exc is not None:
         rep['observed'] = 'raises %s: %s' % (type(exc).__name__, exc)
         allowed = None
